@@ -39,12 +39,12 @@ NC = [0, 1, 2, 3, 5, 7, 30]
 
 def cases(tier, seed):
     out = []
-    n = 260 if tier == "quick" else 8000
+    n = 260 if tier == "quick" else 40000
     for i in range(n):
         out.append({"t": "stats", "rep": i, "seed": seed})
     classes = ["generic", "constant", "huge_offset", "pm1", "tiny"]
     lens = range(1, 9)
-    reps = 1 if tier == "quick" else 25
+    reps = 1 if tier == "quick" else 150
     for cls in classes:
         for L in lens:
             for r in range(reps):
